@@ -99,7 +99,7 @@ class SimAsyncResult(object):
         self._payload = None
 
     def ready(self):
-        self._pool._sim.log.append(('ready?', self._index, self._done))
+        self._pool._state['ready_calls'] += 1
         return self._done
 
     def successful(self):
@@ -306,7 +306,7 @@ class _SimMapResult(object):
 def new_pool_state(poll_budget=1000):
     return {
         'pools': [], 'pool_sizes': [], 'submitted': 0, 'completed_order': [],
-        'polls': 0, 'service_total': 0.0, 'poll_budget': poll_budget,
+        'polls': 0, 'service_total': 0.0, 'poll_budget': poll_budget, 'ready_calls': 0,
     }
 
 
